@@ -448,6 +448,7 @@ var initWhitelist = []string{
 	"github.com/prysmaticlabs/go-bitfield",
 	"github.com/holiman/uint256",
 	"github.com/wealdtech/go-eth2-types",
+	"github.com/shopspring/decimal",
 }
 
 func (e *Exec) ensureInit(p *ssa.Package) {
@@ -475,7 +476,27 @@ func (e *Exec) ensureInit(p *ssa.Package) {
 	e.cur = th
 	prevInit := e.initNow
 	e.initNow = init
-	e.callSync(th, init, nil)
+	func() {
+		// A dependency's initialiser may use operations the engine does not model
+		// (shopspring/decimal converts floats bit by bit): what it initialised up to
+		// there stays, the rest keeps its zero value (a later use of such a variable
+		// shows as a nil dereference that the native replay refutes - exit 3, never
+		// a pass). vouch's own initialisers must run completely.
+		if strings.HasPrefix(p.Pkg.Path(), e.P.modPath) {
+			e.callSync(th, init, nil)
+			return
+		}
+		defer func() {
+			if r := recover(); r != nil {
+				if pa, ok := r.(pathAbort); ok && (pa.kind == "error" || pa.kind == "bound") {
+					e.stubs["partial-init:"+p.Pkg.Path()]++
+					return
+				}
+				panic(r)
+			}
+		}()
+		e.callSync(th, init, nil)
+	}()
 	e.initNow = prevInit
 	e.cur = saved
 }
